@@ -73,6 +73,10 @@ STUB_CLUSTER = ["zmq (simulated network: atomic multipart, per-link FIFO, no cro
 
 CL_FREE = dict(name="cl-free", harness="cluster", weight=3, runs=dict(quick=1500, thorough=40000), opts=dict(lossy=False, jitter=True))
 CL_FAIR = dict(name="cl-fairloss", harness="cluster", weight=2, runs=dict(quick=600, thorough=20000), opts=dict(lossy=True, fair=True, jitter=True))
+CL_SLOW = dict(name="cl-slow", harness="cluster", weight=2, runs=dict(quick=600, thorough=20000), opts=dict(lossy=False, jitter=True, slow=True))
+for _p in ("C01", "C02", "C03", "C04"):
+    PROPS[_p]["groups"].append(CL_SLOW)
+PROPS["C02"]["groups"].append(CL_FAIR)
 PROPS["C01"]["groups"].append(CL_FAIR)
 PROPS["C03"]["groups"].append(CL_FAIR)
 PROPS["C01"]["groups"].append(CL_FREE)
@@ -116,6 +120,7 @@ PROPS["C05"] = dict(
 
 PROPS["C05"]["groups"] += [
     dict(name="kill-lossy", harness="cluster", weight=2, runs=dict(quick=500, thorough=15000), opts=dict(faults=["kill_worker", "kill_data", "task_raise", "task_exit0"], lossy=True, fair=True)),
+    dict(name="kill-slow", harness="cluster", weight=2, runs=dict(quick=500, thorough=15000), opts=dict(faults=["kill_worker", "kill_data", "kill_shm", "task_raise", "task_exit3"], slow=True)),
     dict(name="enum-kill", harness="cluster", weight=4, runs=dict(quick=64, thorough=4000), opts=dict(lossy=False, jitter=True, nmax=6),
          enumerate=dict(kinds=["kill_worker", "kill_data", "kill_shm", "task"], quick=60, thorough=None)),
 ]
